@@ -573,7 +573,30 @@ func (g *schemaGuards) exprFormula(fi *core.FuncInfo, e ast.Expr, recv string, d
 				return &pf{op: '&', l: l, r: r}
 			}
 			return &pf{op: '|', l: l, r: r}
-		case token.EQL, token.NEQ:
+		case token.GTR, token.GEQ, token.LSS, token.LEQ, token.EQL, token.NEQ:
+			// len(e) compared with 0 / 1: one atom "len(e) > 0" and its negation, whatever the spelling
+			if lc, isCall := core.Unparen(x.X).(*ast.CallExpr); isCall && isBuiltin(info, lc, "len") && len(lc.Args) == 1 {
+				if tv, isC := info.Types[x.Y]; isC && tv.Value != nil {
+					k := tv.Value.String()
+					positive, known := false, false
+					switch {
+					case k == "0" && (x.Op == token.GTR || x.Op == token.NEQ), k == "1" && x.Op == token.GEQ:
+						positive, known = true, true
+					case k == "0" && (x.Op == token.EQL || x.Op == token.LEQ), k == "1" && x.Op == token.LSS:
+						positive, known = false, true
+					}
+					if known {
+						a := &pf{op: 'a', atom: "len(" + g.canon(fi, lc.Args[0], recv) + ") > 0"}
+						if !positive {
+							return pNot(a)
+						}
+						return a
+					}
+				}
+			}
+			if x.Op != token.EQL && x.Op != token.NEQ {
+				break
+			}
 			if core.IsNilExpr(info, x.Y) {
 				a := &pf{op: 'a', atom: g.canon(fi, x.X, recv) + " != nil"}
 				if x.Op == token.EQL {
@@ -866,12 +889,12 @@ var docRules = []docRule{
 	{"allOf composition with additionalProperties schema", []string{"len($.schema.AllOf)", "$.schema.AdditionalProperties != nil", "$.schema.AdditionalProperties.Schema != nil"}, true},
 	{"map (additionalProperties: true)", []string{"$.schema.AdditionalProperties != nil", "$.schema.AdditionalProperties.Allows"}, false},
 	{"map of schemas", []string{"$.schema.AdditionalProperties != nil", "$.schema.AdditionalProperties.Schema != nil"}, false},
-	{"string", []string{"$.schema.Type != nil", `$.schema.Type.Contains("string")`}, false},
-	{"integer", []string{"$.schema.Type != nil", `$.schema.Type.Contains("integer")`}, false},
-	{"array of schemas", []string{"$.schema.Type != nil", `$.schema.Type.Contains("array")`, "$.schema.Items != nil", "$.schema.Items.Schema != nil"}, false},
-	{"array without items", []string{"$.schema.Type != nil", `$.schema.Type.Contains("array")`}, false},
-	{"tuple", []string{"$.schema.Type != nil", `$.schema.Type.Contains("array")`, "$.schema.Items != nil", "$.schema.Items.Schemas != nil", "len($.schema.Items.Schemas)"}, true},
-	{"tuple with additionalItems", []string{"$.schema.Type != nil", `$.schema.Type.Contains("array")`, "$.schema.Items != nil", "$.schema.Items.Schemas != nil", "len($.schema.Items.Schemas)", "$.schema.AdditionalItems != nil", "$.schema.AdditionalItems.Allows"}, true},
+	{"string", []string{"$.schema.Type != nil", "len($.schema.Type)", `$.schema.Type.Contains("string")`}, false},
+	{"integer", []string{"$.schema.Type != nil", "len($.schema.Type)", `$.schema.Type.Contains("integer")`}, false},
+	{"array of schemas", []string{"$.schema.Type != nil", "len($.schema.Type)", `$.schema.Type.Contains("array")`, "$.schema.Items != nil", "$.schema.Items.Schema != nil"}, false},
+	{"array without items", []string{"$.schema.Type != nil", "len($.schema.Type)", `$.schema.Type.Contains("array")`}, false},
+	{"tuple", []string{"$.schema.Type != nil", "len($.schema.Type)", `$.schema.Type.Contains("array")`, "$.schema.Items != nil", "$.schema.Items.Schemas != nil", "len($.schema.Items.Schemas)"}, true},
+	{"tuple with additionalItems", []string{"$.schema.Type != nil", "len($.schema.Type)", `$.schema.Type.Contains("array")`, "$.schema.Items != nil", "$.schema.Items.Schemas != nil", "len($.schema.Items.Schemas)", "$.schema.AdditionalItems != nil", "$.schema.AdditionalItems.Allows"}, true},
 }
 
 func guardDocRules(c *Ctx) {
